@@ -5,6 +5,15 @@ import json, os, subprocess, sys, re, time
 ROOT = os.path.dirname(os.path.dirname(os.path.abspath(__file__)))
 only = set(sys.argv[1:])
 rows = []
+NOTES = json.load(open(os.path.join(ROOT, "tools", "seeded_notes.json")))
+def run_check(prop):
+    env = dict(os.environ); env.setdefault("VERIF_MAX_S", "120"); env.setdefault("VERIF_SHRINK_S", "3")
+    r = subprocess.run([os.path.join(ROOT, "check"), prop, "quick"], capture_output=True, text=True, env=env)
+    classes = sorted(set(re.findall(r"^\s+(C\d+/\S+)", r.stderr, re.M)))
+    nviol = len([l for l in r.stdout.splitlines() if l.startswith("VIOLATION")])
+    if r.returncode == 1 and not classes:
+        classes = [prop + "/crash"]
+    return r.returncode, nviol, classes
 for d in sorted(os.listdir(os.path.join(ROOT, "seeded"))):
     mp = os.path.join(ROOT, "seeded", d, "meta.json")
     if not os.path.exists(mp) or (only and d not in only):
@@ -15,16 +24,17 @@ for d in sorted(os.listdir(os.path.join(ROOT, "seeded"))):
     subprocess.run(["git", "-C", "/repo", "apply", os.path.join(ROOT, "seeded", d, "patch.diff")], check=True)
     try:
         t0 = time.time()
-        env = dict(os.environ); env.setdefault("VERIF_MAX_S", "120"); env.setdefault("VERIF_SHRINK_S", "3")
-        r = subprocess.run([os.path.join(ROOT, "check"), prop, "quick"], capture_output=True, text=True, env=env)
-        classes = sorted(set(re.findall(r"^\s+(C\d+/\S+)", r.stderr, re.M)))
-        nviol = len([l for l in r.stdout.splitlines() if l.startswith("VIOLATION")])
-        if r.returncode == 1 and not classes:
-            classes = [prop + "/crash"]
+        rc, nviol, classes = run_check(prop)
+        others = {}
+        for p2 in NOTES.get(d, {}).get("also", []):
+            rc2, nv2, cl2 = run_check(p2)
+            others[p2] = {"exit": rc2, "violation_classes": cl2}
     finally:
         subprocess.run(["git", "-C", "/repo", "checkout", "--", "."], check=True)
     prev = meta.get("check_result", {})
-    meta["check_result"] = {"check": prop, "tier": "quick", "exit": r.returncode, "violation_lines": nviol, "violation_classes": classes, "wall_s": round(time.time() - t0, 1), "note": prev.get("note", "")}
+    meta["check_result"] = {"check": prop, "tier": "quick", "exit": rc, "violation_lines": nviol, "violation_classes": classes, "wall_s": round(time.time() - t0, 1), "note": NOTES.get(d, {}).get("note", prev.get("note", ""))}
+    if others:
+        meta["check_result"]["other_checks"] = others
     meta.setdefault("what_i_ran", f"tools/confirm_seeded.py (existing tests with the change: pass; demonstration with the change: fail; without: pass) and tools/seeded_all.py (git -C /repo apply patch.diff; ./check {prop} quick; git -C /repo checkout -- .)")
     json.dump(meta, open(mp, "w"), indent=1)
-    print(d, r.returncode, classes, flush=True)
+    print(d, rc, classes, others if others else "", flush=True)
